@@ -470,3 +470,263 @@ def prior_logpdf(spec, theta):
         args = [col[a] if isinstance(a, str) else a for a in n['args']]
         total = total + getattr(ss, n['dist']).logpdf(col[n['name']], *args)
     return total
+
+
+# ---------------------------------------------------------------------------------------------
+# random acyclic programs (C03 / C02)
+
+STOCHASTIC_KINDS = ('prior', 'sim')
+OBSERVABLE_KINDS = ('sim', 'sum')
+
+
+def gen_dag_spec(tape, max_nodes=9, allow_stochastic_observed=True):
+    """Random acyclic spec over Constant/Operation/Prior/Simulator/Summary/Discrepancy with
+    fan-in/out, positional + named edges, shared constants, partial observations, uses_meta."""
+    n_nodes = tape.int('n_nodes', 3, max_nodes)
+    nodes = []
+    names = []
+    shapes = {}
+
+    def pick_parents(kind, lo, hi, scalar_only=False, exclude_disc=True):
+        cands = [n['name'] for n in nodes
+                 if not (exclude_disc and n['kind'] == 'disc')
+                 and (not scalar_only or shapes[n['name']] == ())]
+        k = tape.int('n_parents', lo, hi)
+        out = []
+        for _ in range(k):
+            free = [c for c in cands if c not in out]
+            if free and tape.chance('node_parent', 3, 4):
+                out.append(tape.choice('parent', free))
+            else:
+                out.append(float(tape.int('inline_const', 1, 9)) * 0.5)
+        return out
+
+    for i in range(n_nodes):
+        have = {k: [n['name'] for n in nodes if n['kind'] == k]
+                for k in ('const', 'prior', 'op', 'sim', 'sum', 'disc')}
+        kinds = ['prior', 'op', 'sim', 'const']
+        if have['sim'] or have['op'] or have['prior']:
+            kinds += ['sum', 'sum']
+        if have['sum'] or have['sim']:
+            kinds += ['disc']
+        if i == 0:
+            kinds = ['prior', 'const', 'sim']
+        kind = tape.choice('node_kind', kinds)
+        name = '%s%d' % ({'const': 'c', 'prior': 'p', 'op': 'o', 'sim': 'y', 'sum': 's',
+                          'disc': 'd'}[kind], i)
+        node = {'name': name, 'kind': kind}
+        if kind == 'const':
+            node['value'] = float(tape.int('const_value', 1, 12)) * 0.25
+            shapes[name] = ()
+        elif kind == 'prior':
+            node['dist'] = tape.choice('dist', ['uniform', 'norm'])
+            scal = [n['name'] for n in nodes if n['kind'] in ('const', 'prior')]
+            loc = tape.choice('loc_parent', scal) if scal and tape.chance('hier', 1, 2) else \
+                float(tape.int('loc', -2, 2)) * 0.5
+            node['args'] = [loc, float(tape.int('scale', 1, 4)) * 0.5]
+            node['rec'] = True
+            shapes[name] = ()
+        else:
+            lo = 1 if kind in ('sum', 'disc') else 0
+            par = pick_parents(kind, lo, 3)
+            if kind in ('sum', 'disc') and not any(isinstance(p, str) for p in par):
+                cands = [n['name'] for n in nodes if n['kind'] != 'disc']
+                par[0] = tape.choice('forced_parent', cands)
+            if kind == 'disc':
+                # prefer summaries / simulators as parents of a discrepancy
+                pref = have['sum'] + have['sim']
+                if pref and tape.chance('disc_pref', 3, 4):
+                    par = [p for p in par if isinstance(p, str) and p in pref] or \
+                        [tape.choice('disc_parent', pref)]
+                par = [p for p in par if isinstance(p, str)]
+            shape = tape.choice('shape', [(), (), (2,)]) if kind != 'disc' else ()
+            cfg = {'node': name, 'kind': kind, 'shape': shape, 'mode': 'mix',
+                   'salt': 0.03 * (i + 1), 'ndraws': tape.int('ndraws', 1, 2) if kind == 'sim'
+                   else 0}
+            if kind in ('op', 'sim', 'sum') and tape.chance('uses_meta', 1, 5):
+                cfg['use_meta'] = True
+            node['parents'] = par
+            node['cfg'] = cfg
+            # named edges (not for discrepancies: their observed twin is args_to_tuple)
+            named = {}
+            if kind in ('op', 'sim', 'sum') and tape.chance('named_edge', 1, 3):
+                free = [n['name'] for n in nodes if n['kind'] != 'disc' and n['name'] not in par]
+                if free:
+                    named[tape.choice('param_name', ['alpha', 'beta', 'w'])] = \
+                        tape.choice('named_parent', free)
+            node['named'] = named
+            if kind in OBSERVABLE_KINDS:
+                give = tape.chance('observed_given', 6, 7) if kind == 'sim' else \
+                    tape.chance('observed_given', 1, 4)
+                if give:
+                    k = int(np.prod(shape)) if shape else 1
+                    node['observed'] = (np.arange(k, dtype=float).reshape((1,) + tuple(shape))
+                                        * 0.5 + 0.1 * (i + 1))
+            shapes[name] = tuple(shape)
+        nodes.append(node)
+        names.append(name)
+    spec = {'nodes': nodes}
+    # precondition: a simulator whose twin is needed by some discrepancy has an observation
+    idx = spec_index(spec)
+    for n in nodes:
+        if n['kind'] == 'disc':
+            inst = twin_closure(idx, ('tw', n['name']))
+            for (k, x) in inst:
+                if k == 'obs' and idx[x]['kind'] == 'sim' and idx[x].get('observed') is None:
+                    shape = idx[x]['cfg']['shape']
+                    kk = int(np.prod(shape)) if shape else 1
+                    idx[x]['observed'] = np.arange(kk, dtype=float).reshape(
+                        (1,) + tuple(shape)) * 0.5 + 0.7
+    return spec
+
+
+def spec_index(spec):
+    return {n['name']: n for n in spec['nodes']}
+
+
+def all_parents(node):
+    """(param, parent name) for node parents; inline constants are ('c', value)."""
+    out = []
+    if node['kind'] == 'prior':
+        for i, a in enumerate(node['args']):
+            out.append((i, a))
+    elif node['kind'] != 'const':
+        for i, p in enumerate(node.get('parents', [])):
+            out.append((i, p))
+        for k, p in node.get('named', {}).items():
+            out.append((k, p))
+    return out
+
+
+def twin_or_self(idx, p):
+    return ('obs', p) if idx[p]['kind'] in OBSERVABLE_KINDS else ('sim', p)
+
+
+def twin_closure(idx, inst, supplied=()):
+    """All value instances the given instance depends on (reference semantics of C03)."""
+    seen = set()
+    stack = [inst]
+    while stack:
+        cur = stack.pop()
+        if cur in seen:
+            continue
+        seen.add(cur)
+        k, x = cur
+        node = idx[x]
+        if k == 'sim':
+            if x in supplied or node['kind'] == 'const':
+                continue
+            for _, p in all_parents(node):
+                if isinstance(p, str):
+                    stack.append(('sim', p))
+            if node['kind'] == 'disc':
+                stack.append(('tw', x))
+        elif k == 'obs':
+            if node.get('observed') is not None:
+                continue
+            if node['kind'] == 'sim':
+                continue      # parent-less copy of the simulator (generator avoids needing it)
+            for _, p in all_parents(node):
+                if isinstance(p, str):
+                    stack.append(twin_or_self(idx, p))
+        elif k == 'tw':
+            for _, p in all_parents(node):
+                if isinstance(p, str):
+                    stack.append(twin_or_self(idx, p))
+    return seen
+
+
+def observed_depends_on_stochastic(idx, disc):
+    """Does the observed data of discrepancy `disc` depend on a stochastic node?"""
+    for (k, x) in twin_closure(idx, ('tw', disc)):
+        if k == 'sim' and idx[x]['kind'] in STOCHASTIC_KINDS:
+            return True
+        if k == 'obs' and idx[x]['kind'] == 'sim' and idx[x].get('observed') is None:
+            return True
+    return False
+
+
+def build_dag_model(elfi, spec, order=None, tag=None):
+    """Real ElfiModel for a random DAG spec, nodes inserted in `order` (a topological order
+    of the positional-parent relation); named edges are added with model.add_edge."""
+    _build_counter[0] += 1
+    tag = tag or 'g%d' % _build_counter[0]
+    m = elfi.ElfiModel(name=tag)
+    nodes = spec['nodes'] if order is None else order
+    refs = {}
+    for n in nodes:
+        name, kind = n['name'], n['kind']
+        if kind == 'const':
+            refs[name] = elfi.Constant(n['value'], model=m, name=name)
+            continue
+        if kind == 'prior':
+            args = [refs[a] if isinstance(a, str) else a for a in n['args']]
+            refs[name] = elfi.Prior(RecDist('%s/%s' % (tag, name), n['dist'], name), *args,
+                                    model=m, name=name)
+            continue
+        parents = [refs[p] if isinstance(p, str) else p for p in n['parents']]
+        op = RecOp('%s/%s' % (tag, name), n['cfg'])
+        kw = {}
+        if kind in OBSERVABLE_KINDS and n.get('observed') is not None:
+            kw['observed'] = n['observed']
+        cls = {'op': elfi.Operation, 'sim': elfi.Simulator, 'sum': elfi.Summary,
+               'disc': elfi.Discrepancy}[kind]
+        refs[name] = cls(op, *parents, model=m, name=name, **kw)
+        if n['cfg'].get('use_meta'):
+            refs[name].uses_meta = True
+    for n in nodes:
+        for pname, parent in n.get('named', {}).items():
+            m.add_edge(parent, n['name'], param_name=pname)
+    return m, refs
+
+
+def topo_orders_ok(spec, order):
+    pos = {n['name']: i for i, n in enumerate(order)}
+    for n in order:
+        for _, p in all_parents(n):
+            if isinstance(p, str) and n['kind'] != 'const':
+                if (_ := n.get('named', {})) and p in _.values() and p not in n.get('parents', []):
+                    continue
+                if pos[p] > pos[n['name']]:
+                    return False
+    return True
+
+
+def random_insertion_order(tape, spec):
+    """A tape-chosen order that respects positional parents (named edges are added last)."""
+    remaining = list(spec['nodes'])
+    done = set()
+    out = []
+    while remaining:
+        ready = [n for n in remaining
+                 if all((not isinstance(p, str)) or p in done
+                        for p in (n.get('args', []) if n['kind'] == 'prior'
+                                  else n.get('parents', [])))]
+        n = ready[tape.int('insert_pick', 0, len(ready) - 1)]
+        out.append(n)
+        done.add(n['name'])
+        remaining.remove(n)
+    return out
+
+
+def describe_dag(spec):
+    out = []
+    for n in spec['nodes']:
+        d = {'name': n['name'], 'kind': n['kind']}
+        if n['kind'] == 'const':
+            d['value'] = n['value']
+        elif n['kind'] == 'prior':
+            d['dist'] = n['dist']
+            d['args'] = n['args']
+        else:
+            d['parents'] = n['parents']
+            if n.get('named'):
+                d['named'] = n['named']
+            if n['cfg'].get('use_meta'):
+                d['uses_meta'] = True
+            if n['cfg']['shape']:
+                d['shape'] = list(n['cfg']['shape'])
+            if n.get('observed') is not None:
+                d['observed'] = True
+        out.append(d)
+    return out
